@@ -42,6 +42,7 @@ func c16(tier string) []*explore.Scenario {
 	}
 	out = append(out, c16DialBacklog(3, bound+1), c16DialBacklog(5, bound))
 	out = append(out, c17OpSeqs("C16", tier)...)
+	out = append(out, c17Product("C16"))
 	out = append(out, c16RPC("payloads", true, 0))
 	out = append(out, c16Burst(12, 0), c16Burst(50, 0), c16Burst(24, 1))
 	return out
